@@ -119,6 +119,17 @@ class Interp:
                 raise InterpUnsupported("interpreter step budget exceeded")
             if isinstance(st, ast.Return):
                 raise _Return(self.ev(st.value, env, fi) if st.value is not None else None)
+            if isinstance(st, ast.Match):
+                from .loader import lower_match
+
+                low = getattr(st, "_qsa_lowered", False)
+                if low is False:
+                    low = lower_match(st)
+                    st._qsa_lowered = low  # lowered once per statement, not once per evaluated tree
+                if low is None:
+                    raise InterpUnsupported(f"{fi.qualname}: `match` with patterns outside the modelled kinds")
+                self.block(low, env, fi)
+                continue
             if isinstance(st, ast.If):
                 if self.truth(self.ev(st.test, env, fi)):
                     self.block(st.body, env, fi)
